@@ -15,6 +15,9 @@ from .sorts import SV, Ty, INT, BOOL, REAL, XREAL, STR, NONE, OBJ, REF, SEQ, TUP
 from .prover import Obligation
 
 
+BUILTIN_TYPE_CODES = {"int": -1, "bool": -2, "float": -3, "str": -4}
+
+
 class Unsupported(Exception):
     pass
 
@@ -550,6 +553,11 @@ class Engine:
         v = self.global_const(n)
         if v is not None:
             return [(st, v)]
+        if n in BUILTIN_TYPE_CODES and self.reg.specfuns.get("type_of_value"):
+            # the builtin class objects int / bool / float / str as values (type(x) == float): the codes of type_of_value
+            return [(st, SV(Ty("type"), z3.IntVal(BUILTIN_TYPE_CODES[n])))]
+        if n in self.table.classes:
+            return [(st, SV(Ty("type"), z3.IntVal(self.class_id(n))))]
         raise Unsupported("name %s" % n)
 
     def check_stale(self, v, st, n):
@@ -1337,6 +1345,11 @@ class Engine:
                     return _calls.dispatch(self, cls, attr, o, s,
                                            lambda fn, rv, s2: self.call_function(fn, rv, [], {}, s2, recv_static=rv.ty.cls))
                 return self.call_function(f, o, [], {}, s, recv_static=cls)
+            hook = self.reg.specfuns.get("classattr_" + attr)
+            if hook is not None and self.field_decl(cls, attr) is None:
+                hv = hook(self, o, s)
+                if hv is not None:
+                    return [(s, hv)]
             ca = self.class_attr(cls, attr)
             if ca is not None:
                 self.assume_static(ca, s)
@@ -1357,6 +1370,9 @@ class Engine:
                 return self.getattr(r, attr, s)
             # not provably an instance of a class that has the attribute
             return self.implicit(s, "AttributeError", True, lambda s2: [])
+        if k == "type" and attr == "__name__":
+            # the name of a class object: an uninterpreted function of the class id (only ever used in messages)
+            return [(s, SV(STR, self.reg.ufun("type_name", z3.IntSort(), z3.StringSort())(o.t)))]
         raise Unsupported("attribute %s on %r" % (attr, o.ty))
 
     def refine_to_ref(self, o, attr, s):
